@@ -278,6 +278,19 @@ theorem facts_agree_mbr_widths :
     64 ≤ Generated.PartIO.mbrReadContents_start_width ∧ 64 ≤ Generated.PartIO.mbrReadContents_size_width := by
   decide
 
+/-- pinned facts regenerated from disk/disk.go and partition/mbr/table.go, the shapes the dispatch models rely on:
+    Disk.GetPartition breaks out of its loop on the first partition whose GetIndex() equals the argument
+    (`getPartition` = `find?`); mbr.Read allocates 512 bytes and stamps the logical / physical sector size on the
+    table and on every partition exactly when the value handed in is > 0 (`Mbr.stamp`); mbr.Table.Write begins by
+    refusing more than four partitions (`Mbr.writeT`) -/
+theorem facts_agree_dispatch :
+    Generated.PartIO.getPartitionFirstMatch = true ∧
+    Generated.PartIO.mbrReadStamps =
+      ["logicalBlockSize>0:LogicalSectorSize:logicalSectorSize", "physicalBlockSize>0:PhysicalSectorSize:physicalSectorSize"] ∧
+    Generated.PartIO.mbrReadBufLen = 512 ∧
+    Generated.PartIO.mbrWriteMaxParts = 4 ∧ Generated.PartIO.mbrWriteRefusesFirst = true := by
+  decide
+
 /-! non-vacuity: concrete instances meeting the hypotheses -/
 example : (writeContents 5368709120 6 [[1,2,3], [], [4,5,6]]).ok = true := by decide
 example : (writeContents 10 4 [[1,2,3]]).ok = false := by decide
